@@ -4,13 +4,71 @@ import json, os, subprocess
 HERE = os.path.dirname(os.path.dirname(os.path.abspath(__file__)))
 
 # id -> (technique, level text, level note, design ref)
+EXPL = ("Exploration: the property is stated as an executable check over generated cases against an explicit oracle; "
+        "it held on everything generated in the run (counts, label distribution and samples are in the evidence file). Not a proof.")
+def C(tech, what, trust, ref):
+    return (tech, EXPL + " " + what, trust, ref)
 CHECKS = {
- "C01": ("property-based differential testing against an independent reference encoder/strict validator + round-trip, enumerated number-width boundaries (proptest)",
-         "Exploration: tens of thousands (quick) to millions (thorough) of generated trees are encoded by the library and compared byte-for-byte with a reference encoder written from the README, validated by a strict reference decoder, decoded by both library decoders and re-encoded. Held on everything generated; not a proof.",
-         "Trusts the reference encoder/validator in harness/src/model.rs as the documented layout, and proptest's generators for coverage (label distribution reported in evidence).", "5 C01"),
- "C18": ("enumeration of 32-bit patterns (exhaustive in thorough) + property-based testing on 64-bit boundary/random values and on number triples against an exact i128/f64 comparator (proptest)",
-         "Exploration, with an exhaustively enumerated sub-domain in the thorough tier (all 2^32 i32, u32 and f32-widened patterns through encode/decode/views). 64-bit values, malformed byte strings and order triples are sampled with boundary-biased generators.",
-         "Trusts Rust's i128 arithmetic and f64 primitives as the exact-arithmetic base and the shortest-form encoder in model.rs.", "5 C18"),
+ "C01": C("property-based differential testing against an independent reference encoder / strict validator + round-trip; enumerated number-width boundaries (proptest)",
+          "Generated trees are encoded by the library and compared byte-for-byte with a reference encoder written from the README, validated by a strict reference decoder, decoded by both library decoders and re-encoded.",
+          "Trusts the reference encoder/validator in harness/src/model.rs as the documented layout.", "5 C01"),
+ "C02": C("property-based differential testing of the text parser against an independent reference parser (RFC 8259 + the named relaxations) over spelled documents, single-token corruptions, token soups and raw bytes (proptest)",
+          "Spelled documents carry their meaning by construction; corrupted and arbitrary inputs are judged accept-iff-reference-accepts with equal values, never a panic.",
+          "Trusts harness/src/textref.rs as the documented language and Rust std's f64 parser as correctly rounded.", "5 C02"),
+ "C03": C("property-based round-trip / two independent strict acceptors (reference parser, serde_json) on both renderings; metamorphic pretty-vs-compact relation; code-point sweep (proptest)",
+          "Both renderings of generated finite documents are parsed by two independent strict parsers, compared with the original, re-parsed by the library and re-encoded; pretty is compared with compact modulo whitespace and its indentation checked.",
+          "Trusts textref.rs strict mode and serde_json as RFC 8259 acceptors.", "5 C03"),
+ "C04": C("property-based testing of compare against a model comparator over derived triples, all text/binary pairings, plus order laws on the library's own answers (proptest)",
+          "Triples derived from one another by small deep mutations are compared through the library in every representation pairing and against a model of the documented order; reflexivity, antisymmetry and transitivity are checked directly.",
+          "Trusts cmpmodel.rs doc_cmp as the documented order.", "5 C04"),
+ "C05": C("property-based differential testing of every byte-level accessor against ten-line tree functions, with arguments drawn from the document (proptest)",
+          "Each accessor on enc(tree) is compared with a tree function; every returned sub-value with enc(sub-tree).",
+          "Trusts treefn.rs as the meaning of each accessor.", "5 C05"),
+ "C06": C("property-based differential testing of every editor against tree edits, including documented errors and buffer-unchanged-on-error (proptest)",
+          "Each editor's appended bytes are compared with enc(tree edit) and its Result with the documented error.",
+          "Trusts treefn.rs as the meaning of each edit.", "5 C06"),
+ "C07": C("stateful model-based property testing: generated operation sequences interpreted against the library and a tree model, invariant after every step (proptest, vec(op)+interpreter)",
+          "Programs of 1-12 (40) operations over a pool of documents; after every step every produced document must be canonical JSONB and byte-equal to the encoding of the model result.",
+          "Trusts treefn.rs / pathmodel.rs for each step's result and model.rs's strict validator for canonicity.", "5 C07"),
+ "C08": C("property-based differential testing of JSONPath evaluation against a three-valued model evaluator on (document, path) pairs generated together (proptest)",
+          "All-mode results split by offsets are compared item by item with a model evaluator over the tree; every entry point must return Ok or Err, never panic.",
+          "Trusts pathmodel.rs as the documented meaning; cross-kind ordering comparisons are treated as unspecified.", "5 C08"),
+ "C09": C("grammar-based property testing of the JSONPath parser: abstract paths printed in every spelling variant must parse to the intended AST; print/parse round trip; must-reject inputs by construction; token soups and raw bytes for panic-freedom (proptest)",
+          "Generated ASTs are rendered with random legal spacing/case/quoting and compared structurally (exact number classification) with the parse; invalid-by-construction inputs must be rejected.",
+          "Trusts the printer in pathmodel.rs to emit only documented forms.", "5 C09"),
+ "C10": C("fault-injection fuzzing of valid encodings (fault sequences, all truncations and all single-bit flips of each generated encoding) and raw bytes with a UTF-8 / no-panic / prefix-rejection oracle; differential text fallback (proptest + enumeration)",
+          "Valid encodings are corrupted by generated fault sequences; for each small encoding every truncation offset and every single-bit flip is enumerated; JSON texts must fall back to the text parser's value.",
+          "Allocation driven by corrupted counts is not judged.", "5 C10"),
+ "C11": C("metamorphic property testing: every document-taking function called with all 2^k text/binary assignments and compared with the all-binary call (proptest)",
+          "Strict JSON texts written by the reference writer and their encodings are passed to ~45 functions in every assignment; results must agree.",
+          "The all-binary call is the reference (its correctness is other properties' subject).", "5 C11"),
+ "C12": C("property-based testing of contains against a model of the @> rules over derived chains, text and binary, plus reflexivity/transitivity laws (proptest)",
+          "Chains built by containment-preserving and -breaking mutations are judged against a model; laws are checked on the library's own answers.",
+          "Trusts cmpmodel.rs contains().", "5 C12"),
+ "C13": C("property-based testing of the array set functions against a list/multiset model, plus partition / idempotence / overlap laws on the library's outputs (proptest)",
+          "Pairs built from a small element pool (heavy duplication, re-typed numbers, container elements) are judged against a list model with byte identity.",
+          "Trusts treefn.rs list model.", "5 C13"),
+ "C14": C("property-based differential testing of comparable-key byte order against the model comparator, with known classes tolerated by exact structural signature (proptest)",
+          "key(a).cmp(key(b)) is compared with the model comparator on derived pairs; disagreements are classified by the shape of the first difference.",
+          "Same oracle as C04; two known classes (F13, F14a) are tolerated and counted.", "5 C14"),
+ "C15": C("relational (metamorphic) property testing across the four selection modes, the convenience functions, existence and predicates (proptest)",
+          "Purely relational checks on the library's own answers across modes, from empty and pre-filled buffers.",
+          "Needs only the strict validator.", "5 C15"),
+ "C16": C("grammar-based property testing of the key-path parser: printed element lists must parse to the intended elements; print/parse round trip; must-reject inputs; raw bytes for panic-freedom (proptest)",
+          "Element lists rendered with every spacing variant are compared with the parse; invalid-by-construction inputs must be rejected.",
+          "Trusts the printer in c16.rs.", "5 C16"),
+ "C17": C("metamorphic property testing of every buffer-writing function over generated prior buffer contents and batches of calls (proptest)",
+          "The buffer after each call must be the buffer before it followed by what the call writes into an empty buffer; offsets likewise; errors leave it untouched.",
+          "A function's output into an empty buffer is the reference.", "5 C17"),
+ "C18": C("enumeration of 32-bit patterns (exhaustive in the thorough tier) + property-based testing on 64-bit boundary/random values, malformed bytes and number triples against an exact i128/f64 comparator (proptest)",
+          "The thorough tier enumerates all 2^32 i32, u32 and f32-widened patterns through encode/decode/views; 64-bit values, malformed byte strings and order triples are sampled with boundary-biased generators.",
+          "Trusts Rust's i128 arithmetic and f64 primitives.", "5 C18"),
+ "C19": C("property-based structural comparison of the serde_json conversions with the tree and with an independent strict parse of an independent rendering; inverse round trip (proptest)",
+          "to_serde_json / From conversions are compared structurally with exact number classification; conversions back must give the original.",
+          "Trusts serde_json's Value accessors.", "5 C19"),
+ "C20": C("child-process probing of every recursive and iterative operation over a doubling depth schedule (fault observed as process death), plus exhaustive enumeration of extreme index arguments against an i64 model (enumeration + differential)",
+          "Each (operation, depth) probe runs in its own child process with an explicit stack; signal deaths and panics are failures classified against per-operation known findings; extreme i32/usize arguments are enumerated on arrays of length 0-5.",
+          "An 8 MiB thread stack stands for the default main-thread stack; depths are explored on a schedule up to 2^19, not proved.", "5 C20"),
 }
 NOT_YET = {}
 
